@@ -262,7 +262,23 @@ def tfel_check_layer(ck, rng, built):
             tests["t%d" % t] = kinds
             with open(os.path.join(d, "t%d.check" % t), "w") as f:
                 f.write("".join('@Command "sh %s.sh";\n' % k for k in kinds))
-        p = ck.run([binary, "--jobs=%d" % jobs] + ["t%d.check" % t for t in range(ntests)], cwd=d, timeout=900)
+        import subprocess
+        try:
+            p = ck.run([binary, "--jobs=%d" % jobs] + ["t%d.check" % t for t in range(ntests)], cwd=d, timeout=240)
+        except subprocess.TimeoutExpired:
+            key = "corr:tfel-check/src/tfel-check.cxx:hang"
+            if key not in reported:
+                reported.add(key)
+                ck.violation(key, "tfel-check --jobs=%d did not terminate within 240 s on %d tests of one to three short commands" % (jobs, ntests),
+                             {"site": "tfel-check/src/tfel-check.cxx", "jobs": jobs, "tests": tests}, False)
+            continue
+        if p.returncode < 0 or p.returncode > 1:
+            key = "corr:tfel-check/src/tfel-check.cxx:crash"
+            if key not in reported:
+                reported.add(key)
+                ck.violation(key, "tfel-check --jobs=%d ended with status %d" % (jobs, p.returncode),
+                             {"site": "tfel-check/src/tfel-check.cxx", "jobs": jobs, "tests": tests, "stderr": p.stderr[-1500:]}, False)
+            continue
         log = strip(open(os.path.join(d, "tfel-check.log")).read()) if os.path.exists(os.path.join(d, "tfel-check.log")) else ""
         stats["suites"] += 1
         all_ok = True
@@ -304,7 +320,7 @@ def tfel_check_layer(ck, rng, built):
                 if key not in reported:
                     reported.add(key)
                     ck.violation(key, "tfel-check --jobs=%d: test %s (commands %s) is reported %s" % (jobs, name, kinds, got_test), rep, True)
-        if (p.returncode == 0) != all_ok or p.returncode not in (0, 1):
+        if (p.returncode == 0) != all_ok:
             key = "tfel-check/src/tfel-check.cxx:exit-status:%s" % ("all-tests-succeed" if all_ok else "a-test-fails")
             if key not in reported:
                 reported.add(key)
